@@ -214,6 +214,35 @@ theorem clear_twice (env env' : Env) (fs : FS) (hH : Healthy cfg cache fs) (hT :
   obtain ⟨r2, _, g2, d2, _, _, e2⟩ := clear_empties cfg cache env' fs1 h1 t1 d1
   exact ⟨r2, e2, e1, g2, d2⟩
 
+/-- **Representation independence**: what any sequence of keyed writes, reads, lookups, index
+insertions / removals and by-address operations answers depends on the filesystem only through
+its abstraction (the key → entry map and the address → bytes map).  Two healthy caches with the
+same abstraction — however their bucket files differ in superseded records, tombstones, order of
+other keys' records, or directory skeleton — are indistinguishable by every history, and stay so. -/
+theorem representation_independent (ops : List (Env × COp)) (fs1 fs2 : FS)
+    (h1 : Healthy cfg cache fs1) (h2 : Healthy cfg cache fs2) (hl : HexLen cfg)
+    (hops : ∀ x ∈ ops, x.2.WF cfg) (habs : absCache cfg cache fs1 = absCache cfg cache fs2) :
+    (cRunOps cfg cache ops fs1).1 = (cRunOps cfg cache ops fs2).1 ∧
+    absCache cfg cache (cRunOps cfg cache ops fs1).2 = absCache cfg cache (cRunOps cfg cache ops fs2).2 := by
+  obtain ⟨a1, b1, _⟩ := cache_refines_map cfg cache ops fs1 h1 hl hops
+  obtain ⟨a2, b2, _⟩ := cache_refines_map cfg cache ops fs2 h2 hl hops
+  rw [a1, a2, b1, b2, habs]
+  exact ⟨rfl, rfl⟩
+
+/-- The same for the extended surface (listings, full removals, `clear`): equal extended
+abstractions admit the same answers (a listing up to the order of its items) and lead to equal
+abstractions. -/
+theorem representation_independent_ext (ops : List (Env × XOp)) (fs1 fs2 : FS)
+    (h1 : XHealthy cfg cache fs1) (h2 : XHealthy cfg cache fs2) (hl : HexLen cfg)
+    (hops : ∀ x ∈ ops, x.2.WF cfg) (habs : absX cfg cache fs1 = absX cfg cache fs2) :
+    ∃ spec, Answers (xRunOps cfg cache ops fs1).1 spec ∧ Answers (xRunOps cfg cache ops fs2).1 spec ∧
+    absX cfg cache (xRunOps cfg cache ops fs1).2 = absX cfg cache (xRunOps cfg cache ops fs2).2 := by
+  obtain ⟨a1, b1, _⟩ := ListRefine.cache_refines_map_ext cfg cache ops fs1 h1 hl hops
+  obtain ⟨a2, b2, _⟩ := ListRefine.cache_refines_map_ext cfg cache ops fs2 h2 hl hops
+  refine ⟨(xSpecRun cfg ops (absX cfg cache fs1)).1, a1, ?_, ?_⟩
+  · rw [habs]; exact a2
+  · rw [b1, b2, habs]
+
 namespace AxiomCheckSpecLaws
 open Cacache.SpecLaws
 #print axioms removeFullySpec_idem
@@ -221,6 +250,8 @@ open Cacache.SpecLaws
 #print axioms removeFullySpec_again_notFound
 #print axioms removeFully_twice
 #print axioms clear_twice
+#print axioms representation_independent
+#print axioms representation_independent_ext
 end AxiomCheckSpecLaws
 
 end Cacache.SpecLaws
